@@ -54,6 +54,8 @@ def check_shape(case):
     kind, dims = case['kind'], case['dims']
     model = Core.Model(seed=1)
     world = mk(model, kind, dims)
+    # other grid worlds alive in the same process, built after this one and queried in between
+    others = [Envs.GridWorld(Core.Model(seed=2), 4, 3), Envs.DiscreteWorld(Core.Model(seed=3), 2, 3, 4)]
     table = [tuple(p) for p in world.cells['pos']]
     d3 = list(dims) + [0] * (3 - len(dims))
     rmax = max(max(d3), 1) + 1
@@ -65,6 +67,9 @@ def check_shape(case):
     calls = 0
     balls = set()
     for cid, centre in enumerate(table):
+        for o in others:
+            o.get_moore_neighbours(cid % 12, 1)
+            o.get_neumann_neighbours((cid % 2, cid % 3, 0), 2, True, tuple)
         for r in range(0, rmax + 1):
             for metric in ('moore', 'neumann'):
                 if metric == 'moore':
